@@ -47,8 +47,8 @@ extern ssize_t mpt_encode_cobs_r(MPT_STRUCT(encode_state) *info, const struct io
 		--code;
 	}
 	/* need enough data to save end */
-	else if (left <= off) {
-		return -2;
+	else if ((left - off) <= code) {
+		return MPT_ERROR(MissingBuffer);
 	}
 	else {
 		*dst = code;
